@@ -162,7 +162,7 @@ def evaluate(ctx, items, cfgs, uncovered_static=()):
 
 def run(ctx):
     items, unc = gen(ctx)
-    cfgs = ["dbg"] if ctx.quick else ["dbg", "rel", "isa"]
+    cfgs = ["dbg", "rel"] if ctx.quick else ["dbg", "rel", "isa"]
     corr, unc_run = evaluate(ctx, items, cfgs)
     if unc_run:
         corr.add_obl("adjacency_cover", 1, 1, note="uncovered: " + ", ".join(f"{a}>{b}" for a, b in unc_run))
